@@ -5,6 +5,7 @@ import GoatProofs.Lemmas.C10Int
 import GoatProofs.Lemmas.C10ND
 import GoatProofs.Lemmas.C10Claims
 import GoatProofs.Lemmas.C10Paths
+import GoatProofs.Lemmas.C10Override
 /-
 C10 — "Registered claims and custom claims survive a trip through the library unchanged …
 Numeric dates preserve instants to the nanosecond over the whole supported range, and a value that
@@ -369,6 +370,66 @@ example : ((Custom.encode 12 true deepTop deepVal).run demoOracle) = .ok (.obj [
 
 example : ((Custom.encode 12 true deepTop deepVal) >>= fun w => Custom.decode 12 deepTop w).run demoOracle =
     .ok deepVal := rfl
+
+/-! ## EncodeCustom on a used Claims value -/
+
+open GoatProofs.Lemmas.C10Override in
+/-- the struct arm of `encode` is the field loop followed by wrapping the map -/
+theorem encode_struct_eq (fuel : Nat) (addr : Bool) (id : String) (fields : List Field) (sv : Val) :
+    Custom.encode (fuel + 1) addr (.struct id fields) sv =
+      ((typeFields (.struct id fields)).foldlM (fieldStep fuel addr (.struct id fields) sv) [] >>=
+        fun ret => pure (.obj ret)) := by
+  cases sv <;> rfl
+
+open GoatProofs.Lemmas.C10Override in
+/-- **encodeCustom_overrides** — `(*Claims).EncodeCustom(v)` as a function of the previous state of
+    `Claims.Raw` (`none` = nil map), for every struct type, every value, every previous `Raw` and
+    every oracle: if the call succeeds with new state `raw'` then
+    * for every claim name of the type (every name in `typeFields`), `raw'[name]` is the encoding
+      of a field of `v` carrying that name — never a value that was in `Raw` before;
+    * every other name has exactly the value it had before (absent stays absent).
+    (A failing call returns no new state: `Raw` is unchanged.) -/
+theorem encodeCustom_overrides (o : Oracle) (fuel : Nat) (raw : Option (List (String × Wire))) (addr : Bool)
+    (id : String) (fields : List Field) (sv : Val) (raw' : List (String × Wire))
+    (h : (encodeCustom (fuel + 1) raw addr (.struct id fields) sv).run o = .ok raw') :
+    ∀ name,
+      ((∃ f ∈ typeFields (.struct id fields), f.name = name) →
+        ∃ f ∈ typeFields (.struct id fields), f.name = name ∧
+          ∃ w, FieldEnc o fuel addr (.struct id fields) sv f w ∧ Wire.lookup name raw' = some w) ∧
+      ((¬ ∃ f ∈ typeFields (.struct id fields), f.name = name) →
+        Wire.lookup name raw' = Wire.lookup name (raw.getD [])) := by
+  unfold encodeCustom at h
+  obtain ⟨w, hw, h⟩ := PO.run_bind_eq_ok o _ _ _ h
+  rw [encode_struct_eq] at hw
+  obtain ⟨ret, hfold, hw⟩ := PO.run_bind_eq_ok o _ _ _ hw
+  simp only [PO.run_pure, Outcome.ok.injEq] at hw
+  subst hw
+  obtain ⟨hnd, hspec⟩ := fold_spec o fuel addr (.struct id fields) sv _ [] ret hfold (by simp [keys])
+  intro name
+  cases raw with
+  | none =>
+    simp only [PO.run_pure, Outcome.ok.injEq] at h
+    subst h
+    simpa [Wire.lookup] using hspec name
+  | some old =>
+    simp only [PO.run_pure, Outcome.ok.injEq] at h
+    subst h
+    have hm := mergeRaw_lookup name ret old hnd
+    refine ⟨?_, ?_⟩
+    · intro hex
+      obtain ⟨f, hf, hfn, w, hfe, hl⟩ := (hspec name).1 hex
+      exact ⟨f, hf, hfn, w, hfe, by rw [hm, hl]⟩
+    · intro hnot
+      have hl := (hspec name).2 hnot
+      rw [hm, hl]
+      simp [Wire.lookup]
+
+/-- non-vacuity and the stale-value scenario: `Raw` already holds the struct's claim name "a" with
+    an old value and an unrelated member; after EncodeCustom the claim carries the new value, the
+    unrelated member is untouched -/
+example : (encodeCustom 10 (some [("a", .str "OLD"), ("keep", .num "1")]) true innerTy
+      (.strct [.str "NEW", .int 5])).run demoOracle =
+    .ok [("a", .str "NEW"), ("keep", .num "1"), ("n", .num "5")] := rfl
 
 /-! ## claims_roundtrip (partial: audience and string claims) -/
 
